@@ -672,32 +672,38 @@ func packagePrepareWalkFn(root string, ignoreRules *ignorefiles.Ruleset) filepat
 		if err != nil {
 			return fmt.Errorf("invalid .terraformignore rules: %#w", err)
 		}
-		if ignored.Excluded {
-			err := os.RemoveAll(absPath)
-			if err != nil {
-				return fmt.Errorf("failed to remove ignored file %s: %s", relPath, err)
-			}
-			return nil
-		}
-
-		// For directories we also need to check with a path separator on the
-		// end, which ignores entire subtrees.
-		//
-		// TODO: What about exclusion rules that follow a matching directory?
-		// Example:
-		//   /logs
-		//   !/logs/production/*
-		if info.IsDir() {
-			ignored, err := ignoreRules.Excludes(relPath + string(os.PathSeparator))
-			if err != nil {
-				return fmt.Errorf("invalid .terraformignore rules: %#w", err)
-			}
+		if !info.IsDir() {
 			if ignored.Excluded {
 				err := os.RemoveAll(absPath)
 				if err != nil {
 					return fmt.Errorf("failed to remove ignored file %s: %s", relPath, err)
 				}
+				return nil
+			}
+		} else {
+			// For directories we also need to check with a path separator on the
+			// end, which ignores entire subtrees.
+			ignoredTree, err := ignoreRules.Excludes(relPath + string(os.PathSeparator))
+			if err != nil {
+				return fmt.Errorf("invalid .terraformignore rules: %#w", err)
+			}
+			// The whole directory can only be removed if the rule that excludes
+			// it also excludes everything below it and no later rule re-includes
+			// part of it, as in
+			//   /logs
+			//   !/logs/production/*
+			// or the built-in rules for .terraform and .terraform/modules.
+			if (ignored.Excluded && ignored.Dominating) || (ignoredTree.Excluded && ignoredTree.Dominating) {
+				err := os.RemoveAll(absPath)
+				if err != nil {
+					return fmt.Errorf("failed to remove ignored file %s: %s", relPath, err)
+				}
 				return filepath.SkipDir
+			}
+			if ignored.Excluded || ignoredTree.Excluded {
+				// Excluded, but something below may be re-included: keep the
+				// directory and decide for each entry below it.
+				return nil
 			}
 		}
 
